@@ -443,7 +443,11 @@ func (sw *SessionWindow) collectExpiredSessions(currentTime time.Time) [][]types
 
 			if allowedLateness > 0 {
 				closeTime := s.slot.End.Add(allowedLateness)
-				sw.triggeredSessions[key] = &sessionInfo{
+				// one entry per fired session, not per group: the group's next fired session must not
+				// evict an earlier one that is still open for late rows
+				sw.parkedSeq++
+				firedKey := parkedSessionPrefix + strconv.FormatUint(sw.parkedSeq, 10) + groupKeySeparator + sessionOwnerKey(key)
+				sw.triggeredSessions[firedKey] = &sessionInfo{
 					session:   s,
 					closeTime: closeTime,
 				}
@@ -617,15 +621,32 @@ func (sw *SessionWindow) SetCallback(callback func([]types.Row)) {
 // held (the "Locked" convention — re-entering the non-reentrant mutex would
 // deadlock). Returns true if the event was absorbed into a triggered session.
 func (sw *SessionWindow) handleLateData(row types.Row) bool {
-	for _, info := range sw.triggeredSessions {
+	rowKey := extractSessionCompositeKey(row.Data, sw.config.GroupByKeys)
+	for mapKey, info := range sw.triggeredSessions {
+		// only a fired session of the row's own group may absorb it
+		if sessionOwnerKey(mapKey) != rowKey {
+			continue
+		}
 		if info.session.slot.Contains(row.Timestamp) {
 			// Append the late event before re-emitting so the update includes it.
+			row.Slot = info.session.slot // window_start()/window_end() of the re-delivered result
 			info.session.data = append(info.session.data, row)
 			sw.triggerLateUpdateLocked(info.session)
 			return true
 		}
 	}
 	return false
+}
+
+// sessionOwnerKey returns the group key a sessionMap / triggeredSessions key belongs to: the key
+// itself, or the part after the \P<seq>| prefix of a session parked by a gap.
+func sessionOwnerKey(mapKey string) string {
+	if strings.HasPrefix(mapKey, parkedSessionPrefix) {
+		if i := strings.Index(mapKey, groupKeySeparator); i >= 0 {
+			return mapKey[i+len(groupKeySeparator):]
+		}
+	}
+	return mapKey
 }
 
 // triggerLateUpdateLocked triggers a late update for a session (must be called with lock held)
